@@ -449,3 +449,74 @@ Example C04_tokens_ordered_units_example :
   max_line_bytes (utf8_of cps) = 33%nat /\ line_units_ok 21 cps = true /\ lexed_ordered 21 cps = true /\
   lexed_ordered 15 cps = false.
 Proof. repeat split; vm_compute; reflexivity. Qed.
+
+(* ================================================================== the ranges the SERVER sends (agent c04-server)
+   Proofs/ServerRange.v.  Leg c04.ranges runs the real language server (definition, references, documentHighlight,
+   rename, documentSymbol, workspace/symbol, diagnostics) and judges EVERY range of every answer with the booleans
+   extracted from here:
+     range_in_doc cps r            clause (i): r lies in the document, start <= end (range_index of Spec/LspText.v);
+     ranges_designate ts name rs   clause (ii): every r in rs is the Loc (GetNowTokenLoc) of an identifier token of the
+                                   model lexer's token list ts whose text is `name` (the identifier under the cursor for
+                                   definition / references / highlight / rename, `ident_at`; the last component of the
+                                   symbol's name for documentSymbol selection ranges and workspace symbols).
+   The judgement is sound: what it accepts satisfies the property's own words.  (The lexer is a black box here: only
+   C04_tok_range_exact is used.) *)
+From LH Require Import Model.TextSync Spec.LspText Proofs.ServerRange.
+
+(* range_names cps name r  :=  exists i j, range_index cps r = Some (i, j) /\ i <= j /\
+                               utf8_of (firstn (j - i) (skipn i cps)) = name
+   i.e. both end points are positions of the document (LSP reading: UTF-16 columns; LF, CRLF, CR), start <= end, and the
+   text between them is exactly `name`; equivalently covers cps (loc_of_range r) name = true (Spec/LspRange.v) *)
+Theorem C04_designate_sound : forall gbk cps ts name rs,
+  forallb scalar cps = true -> file_class_ok cps = true ->
+  lex_all gbk (utf8_of cps) = Ok ts -> cls_lexerr ts = false ->
+  ranges_designate ts name rs = true ->
+  Forall (range_names cps name) rs.
+Proof. exact designate_sound. Qed.
+Print Assumptions C04_designate_sound.
+
+Theorem C04_range_names_covers : forall cps name r,
+  range_names cps name r <-> covers cps (loc_of_range r) name = true.
+Proof. exact range_names_covers. Qed.
+Print Assumptions C04_range_names_covers.
+
+(* what the judgement accepts for clause (ii) also passes clause (i) *)
+Theorem C04_range_names_in_doc : forall cps name r, range_names cps name r -> range_in_doc cps r = true.
+Proof. exact range_names_in_doc. Qed.
+Print Assumptions C04_range_names_in_doc.
+
+(* the name the driver asks about is the text of an identifier token whose Loc contains the cursor *)
+Theorem C04_ident_at_token : forall ts line ch name, ident_at ts line ch = Some name ->
+  exists t l, In (t, l) (tok_locs zero_tok ts) /\ tk t = TkIdentifier /\ tstr t = name /\ pos_in_loc line ch l = true.
+Proof. exact ident_at_token. Qed.
+Print Assumptions C04_ident_at_token.
+
+Definition srv_lexed (cps : list N) : list ltok :=
+  match lex_all (fun _ => 0%Z) (utf8_of cps) with Ok ts => ts | _ => [] end.
+Definition rg (l1 c1 l2 c2 : N) : range := mkrange (mkpos l1 c1) (mkpos l2 c2).
+
+(* non-vacuity: CRLF file, CJK string and a comment with CJK text in front of the identifiers
+       local s = "<2 CJK>" cfg = {} -- <2 CJK> CRLF TAB cfg.net = 1 ; print(cfg["net"], cfg.net)
+   the three ranges the unchanged server answers for references on `net`: 1:5-1:8 and 1:37-1:40 designate net,
+   1:25-1:30 (the string key, quotes included) does not - class string_key; the identifier under 1:6 is net *)
+Example C04_designate_example :
+  let cps := [108;111;99;97;108;32;115;32;61;32;34;20013;25991;34;32;99;102;103;32;61;32;123;125;32;45;45;32;20013;25991;13;10;
+              9;99;102;103;46;110;101;116;32;61;32;49;32;59;32;112;114;105;110;116;40;99;102;103;91;34;110;101;116;34;93;44;32;
+              99;102;103;46;110;101;116;41] in
+  let net := [110;101;116] in
+  forallb scalar cps = true /\ file_class_ok cps = true /\ cls_lexerr (srv_lexed cps) = false /\
+  ident_at (srv_lexed cps) 1 6 = Some net /\
+  ranges_designate (srv_lexed cps) net [rg 1 5 1 8; rg 1 37 1 40] = true /\
+  ranges_designate (srv_lexed cps) net [rg 1 25 1 30] = false /\
+  cls_string_key (srv_lexed cps) net (rg 1 25 1 30) = true /\
+  range_in_doc cps (rg 1 25 1 30) = true /\ range_in_doc cps (rg 1 37 1 42) = false /\
+  covers cps (loc_of_range (rg 1 37 1 40)) net = true /\ covers cps (loc_of_range (rg 1 25 1 30)) net = false.
+Proof. repeat split; vm_compute; reflexivity. Qed.
+
+(* the guard matters: local s = "a\nb" x = 1 - the judgement accepts the Loc the lexer records for x (0:15-0:16), but
+   the text under it is a blank and `=`'s neighbour: outside file_class_ok nothing is claimed (class escape) *)
+Example C04_designate_needs_guard :
+  let cps := [108;111;99;97;108;32;115;32;61;32;34;97;92;110;98;34;32;120;32;61;32;49] in
+  file_class_ok cps = false /\ ranges_designate (srv_lexed cps) [120] [rg 0 16 0 17] = true /\
+  covers cps (loc_of_range (rg 0 16 0 17)) [120] = false.
+Proof. repeat split; vm_compute; reflexivity. Qed.
